@@ -227,7 +227,7 @@ func (g *c05Gen) stmt() {
 			return
 		}
 		g.feat["index"]++
-		g.def(c05Type{kind: 0, bits: v.t.bits}, fmt.Sprintf("%s[%s & %d]", v.name, i.name, v.t.n-1))
+		g.def(c05Type{kind: 0, bits: v.t.bits}, fmt.Sprintf("%s[%s & %s(%d)]", v.name, i.name, i.t, v.t.n-1))
 	case k < 94: // if/else merge
 		t := g.scalarT()
 		a := g.scalarOf(t)
@@ -346,6 +346,11 @@ func c05GenProg(r *RNG, stmts int, cheap bool) c05Prog {
 	}
 	ta, ua := argT()
 	tb, ub := argT()
+	if r.Intn(5) == 0 {
+		// both arguments arrays of one type (concatenation / comparison of the two)
+		ta, ua = c05Type{kind: 2, bits: g.widths[0], n: 2 + r.Intn(2)}, false
+		tb, ub = ta, false
+	}
 	decl := func(t c05Type, unsized bool) string {
 		if unsized {
 			if t.kind == 1 {
@@ -404,6 +409,37 @@ func c05GenProg(r *RNG, stmts int, cheap bool) c05Prog {
 	for i := 0; i < stmts; i++ {
 		g.stmt()
 	}
+	// epilogue (one program in three when two arrays of one type exist): the two
+	// arrays are concatenated, a slice of the concatenation is returned, both die
+	// at one comparison, fresh values of their width follow
+	var extra []c05Var
+	if r.Intn(3) == 0 {
+		var p, q *c05Var
+		for i := len(g.vars) - 1; i >= 0 && q == nil; i-- {
+			v := &g.vars[i]
+			if v.t.kind != 2 || v.t.size() > 64 {
+				continue
+			}
+			if p == nil {
+				p = v
+			} else if v.t.eq(p.t) && v.name != p.name {
+				q = v
+			}
+		}
+		if p != nil && q != nil {
+			k, w := p.t.n, p.t.bits
+			ut := c05Type{kind: 0, bits: k * w}
+			sc := g.scalarOf(ut)
+			g.emit("ex := %s + %s", sc, sc)
+			g.emit("en := %s + %s", q.name, p.name)
+			g.emit("el := en[%d:%d]", k-1, k+1)
+			g.emit("eq := %s == %s", q.name, p.name)
+			g.emit("es := ex + ex")
+			g.emit("et := es ^ ex")
+			extra = []c05Var{{"el", c05Type{kind: 2, bits: w, n: 2}}, {"eq", c05Type{kind: 4}}, {"es", ut}, {"et", ut}}
+			g.feat["joint-death-epilogue"]++
+		}
+	}
 	// results: 1..3 pool variables, later ones preferred
 	nret := 1 + r.Intn(3)
 	var rets []c05Var
@@ -415,6 +451,7 @@ func c05GenProg(r *RNG, stmts int, cheap bool) c05Prog {
 	if v, ok := g.pick(func(v c05Var) bool { return v.t.scalar() }); ok {
 		rets[0] = v
 	}
+	rets = append(rets, extra...)
 	var rt, rn []string
 	for _, v := range rets {
 		rt = append(rt, v.t.String())
